@@ -23,6 +23,7 @@ from . import brownian_base
 from ..settings import LEVY_AREA_APPROXIMATIONS
 from ..types import Scalar, Optional, Tuple, Union, Tensor
 
+_rsqrt2 = 1 / math.sqrt(2)
 _rsqrt3 = 1 / math.sqrt(3)
 _r12 = 1 / 12
 
@@ -86,12 +87,12 @@ def _davie_foster_approximation(W, H, h, levy_area_approximation, get_noise):
         # Davie's approximation to the Levy area from space-time Levy area
         A = H.unsqueeze(-1) * W.unsqueeze(-2) - W.unsqueeze(-1) * H.unsqueeze(-2)
         noise = get_noise()
-        noise = noise - noise.transpose(-1, -2)  # noise is skew symmetric of variance 2
+        noise = (noise - noise.transpose(-1, -2)) * _rsqrt2  # noise is skew symmetric of variance 1
         if levy_area_approximation == LEVY_AREA_APPROXIMATIONS.foster:
             # Foster's additional correction to Davie's approximation
-            tenth_h = 0.1 * h
+            fifth_h = 0.2 * h
             H_squared = H ** 2
-            std = (tenth_h * (tenth_h + H_squared.unsqueeze(-1) + H_squared.unsqueeze(-2))).sqrt()
+            std = (fifth_h * (0.25 * h + H_squared.unsqueeze(-1) + H_squared.unsqueeze(-2))).sqrt()
         else:  # davie approximation
             std = math.sqrt(_r12 * h ** 2)
         a_tilde = std * noise
